@@ -2,7 +2,7 @@
 # usage: runmutant.sh <patch.diff> <props> [extra govc args]
 # Applies a patch to a scratch copy of /repo's working tree (outside /repo and /verif), runs govc on it,
 # prints the verdict lines and removes the copy.
-patch=$1; props=$2; shift 2
+patch=$(readlink -f "$1"); props=$2; shift 2
 cd /verif && . ./env.sh
 d=$(mktemp -d /tmp/mut-XXXXXX)
 trap 'rm -rf $d' EXIT
